@@ -13,4 +13,5 @@ def run(ctx):
                 "file, block and gap edges; values are a keyed PRF of the absolute index over the full element range",
            observe_pairs=ctx.pick(30, 45), capi_every=3,
            # several channels of one rate and different cadences written and read by one process
-           extra=lambda c, drf: cc.multi_writer_histories(c, drf, c.pick(12, 150), npairs=8, nvec=2)[0])
+           extra=lambda c, drf: cc.multi_writer_histories(c, drf, c.pick(12, 150), npairs=8, nvec=2)[0]
+           + cc.fragmented_histories(c, drf, c.pick(4, 60)))
